@@ -38,6 +38,8 @@ CONSTANTS Sessions,      \* session names (strings)
           StoreArgs,     \* set of [op, F, silent, asuid] records tried by STORE
           ConnFlagSets,  \* flag sets the connector may set
           Record,        \* TRUE: keep the behaviour in hist (simulation)
+          PrefixSets,    \* TRUE: position sets tried by commands are the prefixes {1}, {1,2}, ... only (messages are symmetric)
+          Actors,        \* the sessions that issue commands in the free phase (the others only observe)
           Script         \* <<>> or a sequence of [act, s, args]: the free phase follows exactly this schedule
 
 None == "none"
@@ -748,6 +750,8 @@ SA_Small == {SA("add", {"Deleted"}, FALSE, FALSE), SA("add", {"Seen"}, FALSE, FA
              SA("set", {"Flagged"}, FALSE, TRUE), SA("set", {}, FALSE, FALSE)}
 SA_Cross == {SA("add", {"Deleted"}, FALSE, FALSE), SA("set", {"Seen"}, FALSE, FALSE), SA("set", {"Deleted", "Flagged"}, FALSE, FALSE),
              SA("rem", {"Seen"}, FALSE, FALSE), SA("add", {"Flagged"}, TRUE, FALSE)}
+SA_Obs == {SA("add", {"Seen"}, FALSE, FALSE), SA("add", {"Flagged"}, FALSE, FALSE), SA("add", {"Deleted"}, FALSE, FALSE),
+           SA("rem", {"Seen"}, FALSE, FALSE)}
 CF_None == {{}}
 CF_Seen == {{}, {"Seen"}}
 CF_All == SUBSET SharedFlags
@@ -765,6 +769,9 @@ ScriptTwoOnA == <<
   Sc("Select", "s1", <<"A">>), Sc("Select", "s2", <<"A">>),
   Sc("Append", "s1", <<"A", "m1", 1>>), Sc("Deliver", "s2", <<"Exists", TRUE>>), Sc("Noop", "s2", <<>>),
   Sc("Append", "s1", <<"A", "m2", 2>>), Sc("Deliver", "s2", <<"Exists", TRUE>>), Sc("Noop", "s2", <<>>) >>
+\* prefix: both sessions have A selected and know m1, m2 and m3
+ScriptThreeOnA == ScriptTwoOnA \o <<
+  Sc("Append", "s1", <<"A", "m3", 3>>), Sc("Deliver", "s2", <<"Exists", TRUE>>), Sc("Noop", "s2", <<>>) >>
 \* prefix: m1 is in A and in B; s1 has A selected, s2 has B selected
 ScriptCross == <<
   Sc("Select", "s1", <<"A">>), Sc("Append", "s1", <<"A", "m1", 1>>), Sc("Append", "s1", <<"A", "m2", 2>>),
@@ -778,25 +785,29 @@ ScriptF14 == <<
 
 -----------------------------------------------------------------------------
 (* Next-state relation: the configuration chooses the actions (Acts)          *)
+\* the position sets a command is tried with
+PSets(n) == IF PrefixSets THEN {1..k : k \in 0..n} ELSE SUBSET (1..n)
 \* the scripted prefix may use any action; the free phase only those the configuration names
 On(a) == a \in Acts \/ (Script # <<>> /\ steps < Len(Script))
+\* who may issue commands now: everybody during a scripted prefix, the Actors afterwards
+Cmdrs == IF Script # <<>> /\ steps < Len(Script) THEN Sessions ELSE Actors
 Free ==
-  \/ On("Select") /\ \E s \in Sessions, b \in Boxes : CmdSelect(s, b, FALSE)
-  \/ On("Examine") /\ \E s \in Sessions, b \in Boxes : CmdSelect(s, b, TRUE)
-  \/ On("Close") /\ \E s \in Sessions : CmdClose(s, FALSE)
-  \/ On("Unselect") /\ \E s \in Sessions : CmdClose(s, TRUE)
-  \/ On("Append") /\ \E s \in Sessions, b \in Boxes, m \in Msgs : CmdAppend(s, b, m)
-  \/ On("Store") /\ \E s \in Sessions : \E P \in SUBSET (1..Len(snap[s])) : \E a \in StoreArgs :
+  \/ On("Select") /\ \E s \in Cmdrs, b \in Boxes : CmdSelect(s, b, FALSE)
+  \/ On("Examine") /\ \E s \in Cmdrs, b \in Boxes : CmdSelect(s, b, TRUE)
+  \/ On("Close") /\ \E s \in Cmdrs : CmdClose(s, FALSE)
+  \/ On("Unselect") /\ \E s \in Cmdrs : CmdClose(s, TRUE)
+  \/ On("Append") /\ \E s \in Cmdrs, b \in Boxes, m \in Msgs : CmdAppend(s, b, m)
+  \/ On("Store") /\ \E s \in Cmdrs : \E P \in PSets(Len(snap[s])) : \E a \in StoreArgs :
                               CmdStore(s, P, a.op, a.F, a.silent, a.asuid)
-  \/ On("Refused") /\ \E s \in Sessions, k \in {"StoreRO", "FetchNoPart"} : CmdRefused(s, k)
-  \/ On("Expunge") /\ \E s \in Sessions : CmdExpunge(s, 1..Len(snap[s]), FALSE)
-  \/ On("UidExpunge") /\ \E s \in Sessions : \E P \in SUBSET (1..Len(snap[s])) : CmdExpunge(s, P, TRUE)
-  \/ On("Noop") /\ \E s \in Sessions : CmdNoop(s)
-  \/ On("Fetch") /\ \E s \in Sessions : CmdFetch(s)
-  \/ On("FetchBody") /\ \E s \in Sessions : \E P \in SUBSET (1..Len(snap[s])) : CmdFetchBody(s, P)
-  \/ On("Copy") /\ \E s \in Sessions, d \in Boxes : \E P \in SUBSET (1..Len(snap[s])) : CmdCopy(s, P, d)
-  \/ On("Move") /\ \E s \in Sessions, d \in Boxes : \E P \in SUBSET (1..Len(snap[s])) : CmdMove(s, P, d)
-  \/ On("Idle") /\ \E s \in Sessions : IdleBegin(s) \/ IdleDone(s)
+  \/ On("Refused") /\ \E s \in Cmdrs, k \in {"StoreRO", "FetchNoPart"} : CmdRefused(s, k)
+  \/ On("Expunge") /\ \E s \in Cmdrs : CmdExpunge(s, 1..Len(snap[s]), FALSE)
+  \/ On("UidExpunge") /\ \E s \in Cmdrs : \E P \in PSets(Len(snap[s])) : CmdExpunge(s, P, TRUE)
+  \/ On("Noop") /\ \E s \in Cmdrs : CmdNoop(s)
+  \/ On("Fetch") /\ \E s \in Cmdrs : CmdFetch(s)
+  \/ On("FetchBody") /\ \E s \in Cmdrs : \E P \in PSets(Len(snap[s])) : CmdFetchBody(s, P)
+  \/ On("Copy") /\ \E s \in Cmdrs, d \in Boxes : \E P \in PSets(Len(snap[s])) : CmdCopy(s, P, d)
+  \/ On("Move") /\ \E s \in Cmdrs, d \in Boxes : \E P \in PSets(Len(snap[s])) : CmdMove(s, P, d)
+  \/ On("Idle") /\ \E s \in Cmdrs : IdleBegin(s) \/ IdleDone(s)
   \/ On("Deliver") /\ \E s \in Sessions : Deliver(s)
   \/ On("ConnSetBoxes") /\ \E m \in Msgs : \E B \in SUBSET Boxes : ConnSetBoxes(m, B) \/ ConnSetBoxesRefused(m, B)
   \/ On("ConnSetFlags") /\ \E m \in Msgs : \E F \in ConnFlagSets : ConnSetFlags(m, F)
